@@ -12,7 +12,9 @@ import (
 	"github.com/hashicorp/hcl/v2/gohcl"
 	"github.com/hashicorp/hcl/v2/hcldec"
 	"github.com/hashicorp/hcl/v2/hclsyntax"
+	"github.com/hashicorp/hcl/v2/zzsim"
 	"github.com/zclconf/go-cty/cty"
+	"github.com/zclconf/go-cty/cty/convert"
 )
 
 // The own* helpers make the harness behave like an ordinary caller that treats
@@ -385,9 +387,184 @@ func (w *World) execOp(t int, op OpM) (out func() string) {
 		return func() string {
 			return "spec_misc attrs=" + strings.Join(as, ",") + " blocks=" + strings.Join(bs, ",") + " children=" + strings.Join(cts, ",") + " range=" + sr.String()
 		}
+	case "at_pos":
+		// position look-ups on the shared file (hcl.File's *AtPos accessors)
+		f := w.files[op.Target%(len(w.files)-1)]
+		if op.Target>>8%8 == 0 {
+			f = w.files[len(w.files)-1] // types.hcl
+		}
+		type res struct {
+			pos        hcl.Pos
+			blocks     []*hcl.Block
+			outer, inn *hcl.Block
+			expr       hcl.Expression
+			attr       *hcl.Attribute
+		}
+		var rs []res
+		for k := 0; k < 3; k++ {
+			pos := posAt(f.Bytes, int(zzsim.Mix(op.Mask, uint64(k))%uint64(len(f.Bytes)+1)))
+			rs = append(rs, res{pos, f.BlocksAtPos(pos), f.OutermostBlockAtPos(pos), f.InnermostBlockAtPos(pos), f.OutermostExprAtPos(pos), f.AttributeAtPos(pos)})
+		}
+		return func() string {
+			var b strings.Builder
+			b.WriteString("at_pos")
+			blk := func(x *hcl.Block) string {
+				if x == nil {
+					return "-"
+				}
+				return fmt.Sprintf("%s%q@%s", x.Type, x.Labels, x.DefRange)
+			}
+			for _, r := range rs {
+				fmt.Fprintf(&b, " [%d:", r.pos.Byte)
+				for _, x := range r.blocks {
+					b.WriteString(" " + blk(x))
+				}
+				fmt.Fprintf(&b, " outer=%s inner=%s", blk(r.outer), blk(r.inn))
+				if r.expr != nil {
+					fmt.Fprintf(&b, " expr=%s", r.expr.Range())
+				}
+				if r.attr != nil {
+					fmt.Fprintf(&b, " attr=%s@%s", r.attr.Name, r.attr.Range)
+				}
+				b.WriteString("]")
+			}
+			return b.String()
+		}
+	case "type_defaults":
+		// static analysis of a shared type-constraint expression, and use of
+		// the shared Defaults object derived from it at set-up
+		i := op.Target % len(w.typeExprs)
+		ty, d := typeexpr.TypeConstraint(w.typeExprs[i])
+		ty2, defs, d2 := typeexpr.TypeConstraintWithDefaults(w.typeExprs[i])
+		in := defaultsInput(i, t, op.Mask)
+		var viaShared, viaOwn cty.Value
+		if w.defaults[i] != nil {
+			viaShared = w.defaults[i].Apply(in)
+		}
+		if defs != nil {
+			viaOwn = defs.Apply(in)
+		}
+		var conv cty.Value
+		var cerr error
+		if viaShared != cty.NilVal && !d2.HasErrors() {
+			conv, cerr = convert.Convert(viaShared, w.typeTys[i])
+		}
+		d = ownD(d)
+		d2 = ownD(d2)
+		return func() string {
+			return fmt.Sprintf("type_defaults t%d %s !%s | %s !%s | shared=%s own=%s conv=%s err=%v", i, ty.GoString(), dumpDiags(d), typeexpr.TypeString(ty2), dumpDiags(d2),
+				dumpVal(viaShared), dumpVal(viaOwn), dumpVal(conv), cerr)
+		}
 	case "implied_type":
 		ity := hcldec.ImpliedType(w.spec)
 		return func() string { return "implied_type " + ity.GoString() }
 	}
 	return func() string { return "unknown op " + op.Kind }
+}
+
+// posAt converts a byte offset into a position.
+func posAt(src []byte, off int) hcl.Pos {
+	p := hcl.Pos{Line: 1, Column: 1, Byte: off}
+	for _, c := range src[:off] {
+		if c == '\n' {
+			p.Line++
+			p.Column = 1
+		} else if c&0xC0 != 0x80 {
+			p.Column++
+		}
+	}
+	return p
+}
+
+// defaultsInput builds the value that task t passes to the defaults of type
+// expression i; the mask selects which optional attributes are left out.
+func defaultsInput(i, t int, mask uint64) cty.Value {
+	tag := func(s string) cty.Value { return cty.StringVal(fmt.Sprintf("T%d-%s", t, s)) }
+	bit := func(k uint) bool { return mask>>k&1 == 1 }
+	obj := func(kv map[string]cty.Value) cty.Value {
+		if len(kv) == 0 {
+			return cty.EmptyObjectVal
+		}
+		return cty.ObjectVal(kv)
+	}
+	switch i {
+	case 0:
+		m := map[string]cty.Value{"v": tag("v")}
+		if bit(0) {
+			m["n"] = cty.NumberIntVal(int64(t))
+		}
+		if bit(1) {
+			o := map[string]cty.Value{}
+			if bit(2) {
+				o["a"] = tag("a")
+			}
+			if bit(3) {
+				o["l"] = cty.ListVal([]cty.Value{tag("l")})
+			}
+			m["o"] = obj(o)
+		}
+		if bit(4) {
+			m["o"] = cty.NullVal(cty.DynamicPseudoType)
+		}
+		return obj(m)
+	case 1:
+		e0 := map[string]cty.Value{}
+		if bit(0) {
+			e0["v"] = tag("v")
+		}
+		if bit(1) {
+			y := map[string]cty.Value{}
+			if bit(2) {
+				y["w"] = tag("w")
+			}
+			e0["ys"] = cty.TupleVal([]cty.Value{obj(y), cty.EmptyObjectVal})
+		}
+		if bit(3) {
+			return cty.UnknownVal(cty.List(cty.EmptyObject))
+		}
+		return cty.TupleVal([]cty.Value{obj(e0), cty.EmptyObjectVal})
+	case 2:
+		e := map[string]cty.Value{}
+		if bit(0) {
+			e["a"] = cty.TupleVal([]cty.Value{tag("a"), cty.NumberIntVal(int64(t))})
+		}
+		if bit(1) {
+			e["b"] = cty.SetVal([]cty.Value{tag("b")})
+		}
+		if bit(2) {
+			e["c"] = cty.ObjectVal(map[string]cty.Value{"k": cty.EmptyObjectVal})
+		}
+		return cty.ObjectVal(map[string]cty.Value{"one": obj(e), "two": cty.EmptyObjectVal})
+	case 3:
+		m := map[string]cty.Value{}
+		if bit(0) {
+			p := map[string]cty.Value{}
+			if bit(1) {
+				p["q"] = cty.EmptyObjectVal
+			}
+			m["p"] = obj(p)
+		}
+		if bit(2) {
+			m["s"] = cty.TupleVal([]cty.Value{cty.EmptyObjectVal, cty.ObjectVal(map[string]cty.Value{"t": cty.NumberIntVal(int64(t))})})
+		}
+		if bit(3) {
+			return cty.ObjectVal(m).Mark("m")
+		}
+		return obj(m)
+	case 4:
+		return cty.TupleVal([]cty.Value{tag("x"), tag("y")})
+	case 5:
+		z := map[string]cty.Value{}
+		if bit(0) {
+			z["z"] = tag("z")
+		}
+		return cty.TupleVal([]cty.Value{tag("s"), obj(z)})
+	case 7:
+		e := map[string]cty.Value{}
+		if bit(0) {
+			e["u"] = tag("u")
+		}
+		return cty.TupleVal([]cty.Value{obj(e), cty.ObjectVal(map[string]cty.Value{"w": cty.ListVal([]cty.Value{tag("w")})})})
+	}
+	return cty.ObjectVal(map[string]cty.Value{"bad": tag("bad")})
 }
